@@ -90,8 +90,10 @@ def check_ports(ctx, rng):
     """documented port plan, observed on the sockets the real constructors create"""
     for _ in range(20 if ctx.tier == "quick" else 200):
         defs = W.rand_trx_defs(rng)
-        bts, bb = rng.choice([5700, 5800]), rng.choice([6700, 6900])
-        defs = [(a, bts if p == 5700 else (bb if p == 6700 else p), i) for a, p, i in defs]
+        # base ports of either parity and far from the defaults (the documented plan is base +0/+1/+2, +2 per child index, peer at +100)
+        bts, bb = rng.choice([5700, 5800, 5701, 5803, 1025, 40001]), rng.choice([6700, 6900, 6701, 6903, 2049, 50000])
+        extra = {7700: rng.choice([7700, 7701, 7900]), 8700: rng.choice([8700, 8703, 9001])}
+        defs = [(a, bts if p == 5700 else (bb if p == 6700 else extra.get(p, p)), i) for a, p, i in defs]
         s = Session(defs, bts, bb)
         try:
             for t in s.trxs:
